@@ -110,6 +110,12 @@ func render(v ssa.Value, d int, seen map[ssa.Value]bool) string {
 		case token.MUL:
 			switch a := x.X.(type) {
 			case *ssa.FieldAddr:
+				if al, ok := a.X.(*ssa.Alloc); ok {
+					if sv := SingleStore(al); sv != nil {
+						// spilled value (receiver / struct local): a field of the stored value
+						return r(sv) + "." + fieldName(a.X.Type(), a.Field)
+					}
+				}
 				return r(a.X) + "." + fieldName(a.X.Type(), a.Field)
 			case *ssa.IndexAddr:
 				return r(a.X) + "[" + r(a.Index) + "]"
